@@ -85,6 +85,9 @@ impl SubCheck for FuzzSub {
             .arg("-max_len=8192")
             .arg("-len_control=0")
             .arg("-print_final_stats=1")
+            // a slow input (a timer script that stays stuck up to the read budget, under ASan) is
+            // not a finding: do not let libFuzzer save "slow-unit-*" files among the artifacts
+            .arg("-report_slow_units=600")
             .arg(format!("-artifact_prefix={}/", arts.display()))
             .env("CARGO_NET_OFFLINE", "true")
             .env("VERIF_PROP", self.prop)
@@ -119,7 +122,12 @@ impl SubCheck for FuzzSub {
             }
         }
         res.extra.insert("final_corpus_files".into(), json!(corpus_files));
-        let artifacts: Vec<PathBuf> = std::fs::read_dir(&arts).map(|rd| rd.flatten().map(|e| e.path()).collect()).unwrap_or_default();
+        let all_artifacts: Vec<PathBuf> = std::fs::read_dir(&arts).map(|rd| rd.flatten().map(|e| e.path()).collect()).unwrap_or_default();
+        // only crash-like artifacts count; slow-unit reports are statistics, not failures
+        let is_slow = |p: &PathBuf| p.file_name().map(|n| n.to_string_lossy().starts_with("slow-unit-")).unwrap_or(false);
+        let slow_units = all_artifacts.iter().filter(|p| is_slow(p)).count();
+        res.extra.insert("slow_units_reported".into(), json!(slow_units));
+        let artifacts: Vec<PathBuf> = all_artifacts.into_iter().filter(|p| !is_slow(p)).collect();
         if !out.status.success() || !artifacts.is_empty() {
             let mut reported = false;
             for a in &artifacts {
